@@ -97,7 +97,9 @@ def check_ngram(case):
         status, cnt = vocab.classify(docs, prune)
         possible = vocab.resolve(status, cnt, prune.get("max_unique_tokens"))
         if possible is None:
-            possible = {t for t, v in status.items() if v != "drop"}
+            # a frequency tie leaves the kept vocabulary (and hence whether any n-gram survives) ambiguous: not judged
+            r.label("stage1-ambiguous")
+            return r
         if "token_dictionary" in kw:
             possible = set(kw["token_dictionary"])
         if not any(len([t for t in d if t in possible or mask is not None]) >= (1 if beh == "subgrams" else n) for d in docs):
